@@ -162,7 +162,7 @@ Section PrimH.
       + exact Hpc.
     - eapply (Fr_hs K E0 ex m (uhdr o g m) o (fun x => x <| o_hdr ::= g |>) x Hx);
         [reflexivity | apply ext_eq_upd | reflexivity | reflexivity | reflexivity | reflexivity
-         | reflexivity | reflexivity | left; congruence | exact Hm2 | exact Hm1 | ].
+         | reflexivity | reflexivity | reflexivity | left; congruence | exact Hm2 | exact Hm1 | ].
       intros Hk Hi Hd. apply (U3 Hk Hi Hd).
   Qed.
 End PrimH.
@@ -319,7 +319,7 @@ Section PrimPc.
       + intros i w Hi. left. exists i. rewrite <- Hws. exact Hi.
       + intros w Hw. left. rewrite <- Hwp. exact Hw.
       + intros y j w Hy Hj. left. eauto.
-    - eapply (Fr_alter K E0 ex m m' 0%nat (fun x => x)); [| exact Hd | exact Hcol | |].
+    - eapply (Fr_alter K E0 ex m m' 0%nat (fun x => x)); [| exact Hd | exact Hcol | exact Hwp | |].
       + rewrite alter_id_eq. exact Hh.
       + intros x Hx. apply ObjFr_refl. intros o. rewrite (inD_eq _ _ _ Hd). auto.
       + intros _ x Hx Hi Hb' Hdr. auto.
@@ -440,7 +440,7 @@ Section PrimSide.
       intros Hm. unfold marked, is_in_list_or_queue in *. rewrite (Hm1 Hm). exact Hm.
     - eapply (Fr_hs K E0 ex m (upd o f m) o f x Hx);
         [reflexivity | apply ext_eq_upd | exact F1 | exact F2 | exact F3 | exact F4 | exact F5 | exact F6
-         | exact Hny | exact Hm2 | exact Hm1 | exact Hdr].
+         | exact F7 | exact Hny | exact Hm2 | exact Hm1 | exact Hdr].
   Qed.
 
   (** the in-flight lists only matter as multisets *)
@@ -765,7 +765,8 @@ Section Move.
        o_cls (f x) = o_cls x /\ o_ismap (f x) = o_ismap x /\ o_wfields (f x) = o_wfields x /\
        length (o_fields (f x)) = length (o_fields x) /\
        (o_ismap x = true -> o_fields (f x) = [] /\ o_cleaner (f x) = None) /\
-       (f x = x \/ ((o_box x <> BNotYet \/ o_vst x = VDropping) /\ (o_vst x <> VDropping \/ ex = Some a)))) ->
+       (f x = x \/ ((o_box x <> BNotYet \/ o_vst x = VDropping) /\ (o_vst x <> VDropping \/ ex = Some a) /\
+                     o_vst x <> VUninit /\ (inD m a = false \/ o_vst x = VDropped \/ ex = Some a)))) ->
     (forall o, refs m' o + cnt_id o E' = refs m o + cnt_id o E)%nat ->
     (forall h c t, hloc m' h c t -> hloc m h c t \/ LocOk m' h c t) ->
     (forall t, t ∈ E' -> t ∈ E \/ exists x, get m t = Some x /\ o_box x = BAlloc) ->
@@ -803,12 +804,14 @@ Section Move.
       + intros w Hw. left. rewrite <- Hwp. exact Hw.
       + intros y j w Hy Hj. left. exists j. destruct (Hf y Hy) as (_ & _ & _ & _ & _ & _ & F7 & _).
         rewrite F7 in Hj. exact Hj.
-    - eapply (Fr_alter K E0 ex m m' a f); [exact Hh | exact Hd | exact Hcol | |].
+    - eapply (Fr_alter K E0 ex m m' a f); [exact Hh | exact Hd | exact Hcol | exact Hwp | |].
       + intros y Hy. destruct (Hf y Hy) as (F1 & F2 & F3 & F4 & F5 & F6 & F7 & F8 & F9 & F10).
         assert (HD : forall o, inD m' o = true -> inD m o = true) by (intros o; rewrite (inD_eq _ _ _ Hd); auto).
         split; try congruence; auto.
         * intros Hb Hnv Hex. destruct F10 as [Q|[[Q1|Q1] _]]; [exact Q | congruence | congruence].
-        * intros Hvd Hex. destruct F10 as [Q|[_ [Q|Q]]]; try congruence. rewrite Q. repeat split; auto.
+        * intros Hvd Hex. destruct F10 as [Q|[_ [[Q|Q] _]]]; try congruence. rewrite Q. repeat split; auto.
+        * intros _ Qv Qb. destruct F10 as [Q|(_ & _ & Q & _)]; [rewrite Q; auto | congruence].
+        * intros Hi Hex Hnd. destruct F10 as [Q|(_ & _ & _ & [Q|[Q|Q]])]; [rewrite Q; auto | congruence ..].
         * unfold marked. rewrite F1. auto.
         * intros _ Hb _. unfold marked. rewrite F1. repeat split; auto; congruence.
       + intros Hk y Hy Hi Hb Hdr. destruct (Hf y Hy) as (F1 & F2 & F3 & _). rewrite F1 in Hdr. split; congruence.
@@ -871,7 +874,8 @@ Section MoveInst.
     Cur K b n E0 ex m0 (ol v ++ E) W m -> idx_valid m r ->
     (forall t, v = Some t -> good_h m t) ->
     (forall p j x, r = RField p j -> get m p = Some x ->
-       (o_box x <> BNotYet \/ o_vst x = VDropping) /\ (o_vst x <> VDropping \/ ex = Some p)) ->
+       (o_box x <> BNotYet \/ o_vst x = VDropping) /\ (o_vst x <> VDropping \/ ex = Some p) /\ o_vst x <> VUninit /\
+       (inD m p = false \/ o_vst x = VDropped \/ ex = Some p)) ->
     Cur K b n E0 ex m0 (ol (read_loc r m) ++ E) W (write_loc r v m).
   Proof.
     intros C Hidx Hgood Hhold. pose proof (cur_inv _ _ _ _ _ _ _ _ _ C) as HI.
@@ -907,7 +911,7 @@ Section MoveInst.
     - (* a field *)
       destruct Hidx as (x & Hx & Hj). destruct (lookup_lt_is_Some_2 _ _ Hj) as [a Ha].
       assert (Hr : read_loc (RField p j) m = a) by (cbn; rewrite Hx; cbn; rewrite Ha; reflexivity). rewrite Hr.
-      destruct (Hhold p j x eq_refl Hx) as [Hny Hvd].
+      destruct (Hhold p j x eq_refl Hx) as (Hny & Hvd & Hnu & Hdd).
       assert (HS : heap_st m (write_loc (RField p j) v m)).
       { eapply heap_st_alter; [reflexivity|]. intros y Hy. repeat split; auto. }
       eapply (Cur_move K b n E0 ex m0 (ol v ++ E) W (ol a ++ E) m _ p _ C); try reflexivity.
@@ -1127,6 +1131,7 @@ Section Fresh.
       + intros o Ho. rewrite HW in Ho. destruct (I13 o Ho) as [y Hy]. eauto.
     - split; auto.
       + intros o. rewrite HD. auto.
+      + intros _ o. rewrite HD. auto.
       + intros o y Hy. exists y. split; [apply Hget_mono, Hy|]. apply ObjFr_refl. intros o'. rewrite HD. auto.
       + intros Hk o y Hy Hi Hby Hdy. rewrite HD in Hi. destruct (Hcase _ _ Hy) as [[Hy' _]|[-> ->]]; [eauto 6|congruence].
   Qed.
@@ -1140,23 +1145,25 @@ Section Status2.
       in a way the frame allows *)
   Lemma Fr_step_alter E ex m0 m m' a f :
     Fr K E ex m0 m -> heap m' = alter f a (heap m) -> dead m' = dead m ->
-    st_collecting m' = st_collecting m ->
+    st_collecting m' = st_collecting m -> wparam m' = wparam m ->
     ((get m0 a = None /\ inD m a = false) \/
      ((forall x, get m a = Some x -> ObjFr E ex m m' a x (f x)) /\
       (k_weak K = true -> forall x, get m a = Some x -> inD m a = true -> o_box (f x) = BAlloc ->
          is_dropped (o_hdr (f x)) = false -> o_box x = BAlloc /\ is_dropped (o_hdr x) = false))) ->
     Fr K E ex m0 m'.
   Proof.
-    intros F Hh Hd Hc [[Hn Hi]|[HA HU]].
+    intros F Hh Hd Hc Hwp [[Hn Hi]|[HA HU]].
     - assert (Hget : forall o, get m' o = if decide (a = o) then f <$> get m o else get m o)
         by (intros; apply get_alter, Hh).
       assert (HD : forall o, inD m' o = inD m o) by (intros; apply inD_eq, Hd).
-      destruct F as [F1 F2 F3 F4]. split.
+      destruct F as [F1 Fw F2 Fc F3 F4]. split.
+      + congruence.
       + congruence.
       + intros o Ho. rewrite HD. auto.
+      + intros Hc0 o Ho. rewrite HD in Ho. auto.
       + intros o x Hx. destruct (F3 o x Hx) as (x' & Hx' & OF). exists x'.
         assert (a <> o) by congruence. rewrite Hget, decide_False by assumption. split; [exact Hx'|].
-        destruct OF as [O1 O2 O3 O4 O5 O6 O7 O8 O8' O9 O10]. split; auto.
+        destruct OF as [O1 O2 O3 O4 O5 O6 O7 O8 O8' Ou On Od O9 O10]. split; auto.
         * intros Hv Hex. destruct (O8 Hv Hex) as (? & ? & ? & ? & ?). rewrite HD. auto.
         * intros Hex Hb Hp. destruct (O10 Hex Hb Hp) as (? & ? & ? & ?). rewrite HD. auto.
       + intros Hk o x' Hx' Hi' Hb Hdr. rewrite HD in Hi'. rewrite Hget in Hx'.
@@ -1186,7 +1193,7 @@ Section Status2.
   Proof.
     intros C Hx Hh He Hsd Hnb Fm Ff Fc Fw Hcnt Hok Hox HL1 HL2 HE Hpc Hv HF.
     pose proof (cur_inv _ _ _ _ _ _ _ _ _ C) as HI.
-    pose proof He as (_ & _ & _ & _ & _ & _ & _ & Hd & _ & Hcol).
+    pose proof He as (_ & _ & _ & Hwpm & _ & _ & _ & Hd & _ & Hcol).
     destruct C as [C1 C2 C3 C4]. split.
     - exact Hnb.
     - eapply SInv_status; eauto.
@@ -1463,7 +1470,8 @@ Section Status5.
   Lemma Cur_free b n E0 ex m0 E W m o x :
     Cur K b n E0 ex m0 E W m -> get m o = Some x -> o_box x = BAlloc ->
     (refs m o + cnt_id o E = 0)%nat -> is_live x = false -> o_vst x <> VDropping ->
-    ((get m0 o = None /\ inD m o = false) \/ (cnt_id o E0 = 0%nat /\ marked x = false) \/ ex = Some o) ->
+    ((get m0 o = None /\ inD m o = false) \/
+     (o_vst x <> VUninit /\ cnt_id o E0 = 0%nat /\ marked x = false) \/ ex = Some o) ->
     Cur K b n E0 ex m0 E W (dealloc K o (drop_metadata K o m)).
   Proof.
     intros C Hx Hb Hz Hl Hvd Hunp. pose proof (cur_inv _ _ _ _ _ _ _ _ _ C) as HI.
@@ -1526,7 +1534,8 @@ Section Status5.
     - intros v Hvl. destruct (sv_values _ _ _ _ _ HI _ _ Hvl) as [(y & Hy & Hby & _) _]. congruence.
     - destruct Hunp as [Hf|Hunp]; [left; exact Hf|right]. split.
       + unfold f. split; cbn; auto; try congruence.
-        * intros Hex _ [Hp|[Hm _]]; destruct Hunp as [[Hc Hnm]|Hex']; try congruence; lia.
+        * intros Hex Hvu _. destruct Hunp as [(Hnu & _)|Hex']; congruence.
+        * intros Hex _ [Hp|[Hm _]]; destruct Hunp as [(_ & Hc & Hnm)|Hex']; try congruence; lia.
       + intros Hk Hi Hb' _. cbn in Hb'. discriminate.
   Qed.
 End Status5.
@@ -1543,32 +1552,30 @@ Section WMove.
   Context (K : conf).
   Implicit Types (m : machine) (o : id) (x : obj).
 
-  Lemma Cur_wmove b n E0 ex m0 E W W' m m' a f :
-    Cur K b n E0 ex m0 E W m ->
+  Lemma SInv_wmove b E W W' m m' a f (ex : option id) :
+    SInv K b E W m ->
     heap m' = alter f a (heap m) ->
     slots m' = slots m -> bag m' = bag m -> values m' = values m ->
-    pc m' = pc m -> dead m' = dead m -> pc_alive m' = pc_alive m -> st_collecting m' = st_collecting m ->
+    pc m' = pc m -> dead m' = dead m -> pc_alive m' = pc_alive m ->
     st_dropping m' = st_dropping m -> length (wslots m') = length (wslots m) ->
-    length (cslots m') = length (cslots m) -> NoBad m' ->
+    length (cslots m') = length (cslots m) ->
     (forall x, get m a = Some x ->
        o_hdr (f x) = o_hdr x /\ o_vst (f x) = o_vst x /\ o_box (f x) = o_box x /\ o_side (f x) = o_side x /\
        o_cls (f x) = o_cls x /\ o_ismap (f x) = o_ismap x /\ o_fields (f x) = o_fields x /\
        o_cleaner (f x) = o_cleaner x /\
        (o_ismap x = true -> o_wfields (f x) = []) /\
-       (f x = x \/ o_box x <> BNotYet \/ o_vst x = VDropping)) ->
+       (f x = x \/ ((o_box x <> BNotYet \/ o_vst x = VDropping) /\ (o_vst x <> VUninit \/ ex = Some a)))) ->
     (forall o, wrefs m' o + cnt_wr o W' = wrefs m o + cnt_wr o W)%nat ->
     (forall i w, wslots m' !! i = Some w -> (exists i', wslots m !! i' = Some w) \/ wnomap m w) ->
     (forall w, w ∈ wparam m' -> w ∈ wparam m \/ wnomap m (Some w)) ->
     (forall x j w, get m a = Some x -> o_wfields (f x) !! j = Some w ->
        (exists j', o_wfields x !! j' = Some w) \/ wnomap m w) ->
-    Cur K b n E0 ex m0 E W' m'.
+    SInv K b E W' m'.
   Proof.
-    intros C Hh Hs Hb Hv Hpc Hd Hal Hcol Hsd Hls Hlc Hnb Hf Hwr Hw1 Hw2 Hw3.
-    pose proof (cur_inv _ _ _ _ _ _ _ _ _ C) as HI.
+    intros HI Hh Hs Hb Hv Hpc Hd Hal Hsd Hls Hlc Hf Hwr Hw1 Hw2 Hw3.
     assert (HR : forall o, refs m' o = refs m o).
     { intros o. eapply refs_alter_same; eauto. intros y Hy. destruct (Hf y Hy) as (_ & _ & _ & _ & _ & _ & F7 & F8 & _). auto. }
-    eapply Cur_step; [exact C | exact Hnb | | | exact Hd].
-    - eapply (SInv_alter K b E W E W' m m' a f HI).
+    eapply (SInv_alter K b E W E W' m m' a f HI).
       + exact Hh.
       + exact Hd.
       + exact Hal.
@@ -1595,12 +1602,39 @@ Section WMove.
       + exact Hw1.
       + exact Hw2.
       + exact Hw3.
-    - eapply (Fr_alter K E0 ex m m' a f); [exact Hh | exact Hd | exact Hcol | |].
+  Qed.
+
+  Lemma Cur_wmove b n E0 ex m0 E W W' m m' a f :
+    Cur K b n E0 ex m0 E W m ->
+    heap m' = alter f a (heap m) ->
+    slots m' = slots m -> bag m' = bag m -> values m' = values m -> wparam m' = wparam m ->
+    pc m' = pc m -> dead m' = dead m -> pc_alive m' = pc_alive m -> st_collecting m' = st_collecting m ->
+    st_dropping m' = st_dropping m -> length (wslots m') = length (wslots m) ->
+    length (cslots m') = length (cslots m) -> NoBad m' ->
+    (forall x, get m a = Some x ->
+       o_hdr (f x) = o_hdr x /\ o_vst (f x) = o_vst x /\ o_box (f x) = o_box x /\ o_side (f x) = o_side x /\
+       o_cls (f x) = o_cls x /\ o_ismap (f x) = o_ismap x /\ o_fields (f x) = o_fields x /\
+       o_cleaner (f x) = o_cleaner x /\
+       (o_ismap x = true -> o_wfields (f x) = []) /\
+       (f x = x \/ ((o_box x <> BNotYet \/ o_vst x = VDropping) /\ (o_vst x <> VUninit \/ ex = Some a)))) ->
+    (forall o, wrefs m' o + cnt_wr o W' = wrefs m o + cnt_wr o W)%nat ->
+    (forall i w, wslots m' !! i = Some w -> (exists i', wslots m !! i' = Some w) \/ wnomap m w) ->
+    (forall w, w ∈ wparam m' -> w ∈ wparam m \/ wnomap m (Some w)) ->
+    (forall x j w, get m a = Some x -> o_wfields (f x) !! j = Some w ->
+       (exists j', o_wfields x !! j' = Some w) \/ wnomap m w) ->
+    Cur K b n E0 ex m0 E W' m'.
+  Proof.
+    intros C Hh Hs Hb Hv Hwp Hpc Hd Hal Hcol Hsd Hls Hlc Hnb Hf Hwr Hw1 Hw2 Hw3.
+    pose proof (cur_inv _ _ _ _ _ _ _ _ _ C) as HI.
+    eapply Cur_step; [exact C | exact Hnb | | | exact Hd].
+    - eapply (SInv_wmove b E W W' m m' a f ex HI); eassumption.
+    - eapply (Fr_alter K E0 ex m m' a f); [exact Hh | exact Hd | exact Hcol | exact Hwp | |].
       + intros y Hy. destruct (Hf y Hy) as (F1 & F2 & F3 & F4 & F5 & F6 & F7 & F8 & F9 & F10).
         assert (HD : forall o, inD m' o = true -> inD m o = true) by (intros o; rewrite (inD_eq _ _ _ Hd); auto).
         split; try congruence; auto.
-        * intros Hb' Hnv Hex. destruct F10 as [Q|[Q|Q]]; [exact Q | congruence | congruence].
+        * intros Hb' Hnv Hex. destruct F10 as [Q|[[Q|Q] _]]; [exact Q | congruence | congruence].
         * intros Hvd _. repeat split; auto; congruence.
+        * intros Hex Qv Qb. destruct F10 as [Q|[_ [Q|Q]]]; [rewrite Q; auto | congruence | congruence].
         * unfold marked. rewrite F1. auto.
         * intros _ Hb' _. unfold marked. rewrite F1. repeat split; auto; congruence.
       + intros Hk y Hy Hi Hb' Hdr. destruct (Hf y Hy) as (F1 & F2 & F3 & _). rewrite F1 in Hdr. split; congruence.
@@ -1611,7 +1645,7 @@ Definition widx_valid (m : machine) (r : rwloc) : Prop :=
   match r with
   | RWSlot i => (i < length (wslots m))%nat
   | RWField p j => exists x, get m p = Some x /\ (j < length (o_wfields x))%nat /\
-                             (o_box x <> BNotYet \/ o_vst x = VDropping)
+                             (o_box x <> BNotYet \/ o_vst x = VDropping) /\ o_vst x <> VUninit
   | RWParam => False
   end.
 
@@ -1631,6 +1665,30 @@ Qed.
 Section WMoveInst.
   Context (K : conf).
   Implicit Types (m : machine) (o : id) (x : obj).
+
+  Lemma Cur_write_wfield b n E0 ex m0 E W m p j v x :
+    Cur K b n E0 ex m0 E (olw v ++ W) m -> get m p = Some x -> (j < length (o_wfields x))%nat ->
+    (o_box x <> BNotYet \/ o_vst x = VDropping) -> (o_vst x <> VUninit \/ ex = Some p) -> wnomap m v ->
+    Cur K b n E0 ex m0 E (olw (read_wloc (RWField p j) m) ++ W) (write_wloc (RWField p j) v m).
+  Proof.
+    intros C Hx Hj Hny Hnu Hnm. pose proof (cur_inv _ _ _ _ _ _ _ _ _ C) as HI.
+    destruct (lookup_lt_is_Some_2 _ _ Hj) as [a Ha].
+    assert (Hr : read_wloc (RWField p j) m = a) by (cbn; rewrite Hx; cbn; rewrite Ha; reflexivity). rewrite Hr.
+    eapply (Cur_wmove K b n E0 ex m0 E (olw v ++ W) (olw a ++ W) m _ p _ C); try reflexivity.
+    + eapply NoBad_log; [reflexivity | apply C].
+    + intros y Hy. assert (y = x) by congruence. subst y.
+      destruct (sv_objx _ _ _ _ _ HI _ _ Hx) as [_ _ _ _ X5 _]. cbn. repeat split; auto.
+      intros Hm. destruct (X5 Hm) as (_ & _ & Hw). rewrite Hw in Hj. cbn in Hj. lia.
+    + intros o. rewrite !cnt_wr_app, !cnt_wr_olw. cbn [write_wloc].
+      pose proof (wrefs_upd m p (fun x => x <| o_wfields ::= <[j:=v]> |>) x o Hx) as H1. cbv beta in H1.
+      change (o_wfields (x <| o_wfields ::= <[j:=v]> |>)) with (<[j:=v]> (o_wfields x)) in H1.
+      pose proof (cnt_w_insert o _ _ _ v Ha) as Hc. unfold b2n.
+      destruct (eqb_wref a o), (eqb_wref v o); lia.
+    + intros i' w Hi'. eauto.
+    + auto.
+    + intros y j' w Hy Hj'. assert (y = x) by congruence. subst y. cbn in Hj'.
+      apply lookup_insert_Some_inv in Hj' as [[-> ->]|[Hne Hj']]; eauto.
+  Qed.
 
   Lemma Cur_write_wloc b n E0 ex m0 E W m r v :
     Cur K b n E0 ex m0 E (olw v ++ W) m -> widx_valid m r -> wnomap m v ->
@@ -1656,22 +1714,7 @@ Section WMoveInst.
       + intros i' w Hi'. cbn in Hi'. apply lookup_insert_Some_inv in Hi' as [[-> ->]|[Hne Hi']]; eauto.
       + auto.
       + intros x j w Hx Hj. eauto.
-    - destruct Hidx as (x & Hx & Hj & Hny). destruct (lookup_lt_is_Some_2 _ _ Hj) as [a Ha].
-      assert (Hr : read_wloc (RWField p j) m = a) by (cbn; rewrite Hx; cbn; rewrite Ha; reflexivity). rewrite Hr.
-      eapply (Cur_wmove K b n E0 ex m0 E (olw v ++ W) (olw a ++ W) m _ p _ C); try reflexivity.
-      + eapply NoBad_log; [reflexivity | apply C].
-      + intros y Hy. assert (y = x) by congruence. subst y.
-        destruct (sv_objx _ _ _ _ _ HI _ _ Hx) as [_ _ _ _ X5 _]. cbn. repeat split; auto.
-        intros Hm. destruct (X5 Hm) as (_ & _ & Hw). rewrite Hw in Hj. cbn in Hj. lia.
-      + intros o. rewrite !cnt_wr_app, !cnt_wr_olw. cbn [write_wloc].
-        pose proof (wrefs_upd m p (fun x => x <| o_wfields ::= <[j:=v]> |>) x o Hx) as H1. cbv beta in H1.
-        change (o_wfields (x <| o_wfields ::= <[j:=v]> |>)) with (<[j:=v]> (o_wfields x)) in H1.
-        pose proof (cnt_w_insert o _ _ _ v Ha) as Hc. unfold b2n.
-        destruct (eqb_wref a o), (eqb_wref v o); lia.
-      + intros i' w Hi'. eauto.
-      + auto.
-      + intros y j' w Hy Hj'. assert (y = x) by congruence. subst y. cbn in Hj'.
-        apply lookup_insert_Some_inv in Hj' as [[-> ->]|[Hne Hj']]; eauto.
+    - destruct Hidx as (x & Hx & Hj & Hny & Hnu). apply (Cur_write_wfield b n E0 ex m0 E W m p j v x C Hx Hj Hny (or_introl Hnu) Hnm).
   Qed.
 End WMoveInst.
 
@@ -1681,12 +1724,12 @@ Section SmallMoves.
   Context (K : conf).
   Implicit Types (m : machine) (o : id) (x : obj).
 
-  Lemma id_move_premise b E W m (HI : SInv K b E W m) :
+  Lemma id_move_premise b E W m (ex : option id) (HI : SInv K b E W m) :
     forall x, get m 0%nat = Some x ->
       o_hdr x = o_hdr x /\ o_vst x = o_vst x /\ o_box x = o_box x /\ o_side x = o_side x /\
       o_cls x = o_cls x /\ o_ismap x = o_ismap x /\ o_fields x = o_fields x /\
       o_cleaner x = o_cleaner x /\ (o_ismap x = true -> o_wfields x = []) /\
-      (x = x \/ o_box x <> BNotYet \/ o_vst x = VDropping).
+      (x = x \/ ((o_box x <> BNotYet \/ o_vst x = VDropping) /\ (o_vst x <> VUninit \/ ex = Some 0%nat))).
   Proof.
     intros x Hx. destruct (sv_objx _ _ _ _ _ HI _ _ Hx) as [_ _ _ _ X5 _]. repeat split; auto. intros Hm. apply X5, Hm.
   Qed.
@@ -1701,7 +1744,7 @@ Section SmallMoves.
     - cbn. rewrite alter_id_eq. reflexivity.
     - cbn. apply insert_length.
     - eapply NoBad_log; [reflexivity | apply C].
-    - apply (id_move_premise _ _ _ _ HI).
+    - apply (id_move_premise _ _ _ _ _ HI).
     - intros o. rewrite !wrefs_unfold, !cnt_wr_app.
       change (wslots (m <| cslots ::= <[c:=v]> |>)) with (wslots m).
       change (wparam (m <| cslots ::= <[c:=v]> |>)) with (wparam m).
@@ -1717,15 +1760,13 @@ Section SmallMoves.
   Qed.
 
   (** the parameter stack of running new_cyclic closures *)
-  Lemma Cur_wparam_push b n E0 ex m0 E W m w :
-    Cur K b n E0 ex m0 E (w :: W) m -> wnomap m (Some w) ->
-    Cur K b n E0 ex m0 E W (m <| wparam ::= cons w |>).
+  Lemma SInv_wparam_push b E W m w :
+    SInv K b E (w :: W) m -> wnomap m (Some w) -> SInv K b E W (m <| wparam ::= cons w |>).
   Proof.
-    intros C Hnm. pose proof (cur_inv _ _ _ _ _ _ _ _ _ C) as HI.
-    eapply (Cur_wmove K b n E0 ex m0 E (w :: W) W m _ 0%nat (fun x => x) C); try reflexivity.
+    intros HI Hnm.
+    eapply (SInv_wmove K b E (w :: W) W m _ 0%nat (fun x => x) None HI); try reflexivity.
     - cbn. rewrite alter_id_eq. reflexivity.
-    - eapply NoBad_log; [reflexivity | apply C].
-    - apply (id_move_premise _ _ _ _ HI).
+    - apply (id_move_premise _ _ _ _ _ HI).
     - intros o. rewrite !wrefs_unfold, cnt_wr_cons.
       change (wparam (m <| wparam ::= cons w |>)) with (w :: wparam m). cbn [map]. rewrite cnt_w_cons.
       change (wslots (m <| wparam ::= cons w |>)) with (wslots m).
@@ -1735,15 +1776,13 @@ Section SmallMoves.
     - intros w' Hw. cbn in Hw. apply elem_of_cons in Hw as [->|Hw]; auto.
     - intros x j w' Hx Hj. eauto.
   Qed.
-  Lemma Cur_wparam_pop b n E0 ex m0 E W m w rest :
-    Cur K b n E0 ex m0 E W m -> wparam m = w :: rest ->
-    Cur K b n E0 ex m0 E (w :: W) (m <| wparam ::= tail |>).
+  Lemma SInv_wparam_pop b E W m w rest :
+    SInv K b E W m -> wparam m = w :: rest -> SInv K b E (w :: W) (m <| wparam ::= tail |>).
   Proof.
-    intros C Hw. pose proof (cur_inv _ _ _ _ _ _ _ _ _ C) as HI.
-    eapply (Cur_wmove K b n E0 ex m0 E W (w :: W) m _ 0%nat (fun x => x) C); try reflexivity.
+    intros HI Hw.
+    eapply (SInv_wmove K b E W (w :: W) m _ 0%nat (fun x => x) None HI); try reflexivity.
     - cbn. rewrite alter_id_eq. reflexivity.
-    - eapply NoBad_log; [reflexivity | apply C].
-    - apply (id_move_premise _ _ _ _ HI).
+    - apply (id_move_premise _ _ _ _ _ HI).
     - intros o. rewrite !wrefs_unfold, cnt_wr_cons.
       change (wparam (m <| wparam ::= tail |>)) with (tail (wparam m)). rewrite Hw. cbn [tail map]. rewrite cnt_w_cons.
       change (wslots (m <| wparam ::= tail |>)) with (wslots m).
@@ -1761,7 +1800,8 @@ Section SmallMoves.
        o_cls x = o_cls x /\ o_ismap x = o_ismap x /\ o_wfields x = o_wfields x /\
        length (o_fields x) = length (o_fields x) /\
        (o_ismap x = true -> o_fields x = [] /\ o_cleaner x = None) /\
-       (x = x \/ ((o_box x <> BNotYet \/ o_vst x = VDropping) /\ (o_vst x <> VDropping \/ ex = Some 0%nat))).
+       (x = x \/ ((o_box x <> BNotYet \/ o_vst x = VDropping) /\ (o_vst x <> VDropping \/ ex = Some 0%nat) /\ o_vst x <> VUninit /\
+                  (inD m 0%nat = false \/ o_vst x = VDropped \/ ex = Some 0%nat))).
   Proof.
     intros x Hx. destruct (sv_objx _ _ _ _ _ HI _ _ Hx) as [_ _ _ _ X5 _]. repeat split; auto;
       match goal with H : o_ismap _ = true |- _ => destruct (X5 H) as (? & ? & _) end; auto.
@@ -1855,7 +1895,7 @@ Section Proj.
       + intros w Hw. rewrite Hwp in Hw. intros o Ho. rewrite HM. eapply I11; eauto.
       + intros p xp j w Hp Hj. rewrite HG in Hp. intros o Ho. rewrite HM. eapply I12; eauto.
       + intros o Ho. rewrite HW in Ho. rewrite HG. apply I13, Ho.
-    - eapply (Fr_alter K E0 ex m m' 0%nat (fun x => x)); [| exact Hd | exact Hcol | |].
+    - eapply (Fr_alter K E0 ex m m' 0%nat (fun x => x)); [| exact Hd | exact Hcol | exact Hwp | |].
       + rewrite alter_id_eq. exact Hh.
       + intros x Hx. apply ObjFr_refl. intros o. rewrite HD. auto.
       + intros _ x Hx Hi Hb' Hdr. auto.
